@@ -81,6 +81,9 @@ type scenario struct {
 	MaxPods int64  `json:"maxpods"`
 	Kinds   []kind `json:"kinds"`
 	Ops     []op   `json:"ops"`
+	// edges mode: the first Silent ops are a prefix that is logged and judged in another scenario;
+	// they are executed but not logged, a Restore line carries the state reached
+	Silent int `json:"silent"`
 }
 
 var statusByName = map[string]pod_status.PodStatus{
@@ -348,7 +351,7 @@ func (w *world) flush(out *tracefmt.Writer) {
 		ops = append(ops, map[string]any{"op": o.Op, "p": o.P, "st": o.St, "grp": cp(o.Grp)})
 	}
 	out.Emit(map[string]any{"ev": "Scenario", "id": sc.ID, "class": sc.Class, "n": sc.N, "gpumem": sc.GpuMem, "cpu": sc.Cpu,
-		"maxpods": sc.MaxPods, "kinds": sc.Kinds, "groups": groups, "ops": ops})
+		"maxpods": sc.MaxPods, "kinds": sc.Kinds, "groups": groups, "ops": ops, "silent": sc.Silent})
 	for _, ev := range w.events {
 		gm := ev["gm"].(map[string]map[string]int64)
 		um, am, rm, mk, ak := []int64{}, []int64{}, []int64{}, []int64{}, []int64{}
@@ -367,8 +370,23 @@ func (w *world) flush(out *tracefmt.Writer) {
 
 func runScenario(sc *scenario, out *tracefmt.Writer) (steps, mm int) {
 	w := newWorld(sc)
-	for _, o := range sc.Ops {
+	for i, o := range sc.Ops {
 		w.apply(o)
+		if i+1 == sc.Silent && len(w.events) > 0 {
+			// keep only the state reached, as a Restore line
+			last := w.events[len(w.events)-1]
+			errs := ""
+			for _, ev := range w.events {
+				if ev["err"].(string) != "" {
+					errs = ev["err"].(string)
+				}
+			}
+			r := map[string]any{"ev": "Restore", "err": errs, "mm": 0}
+			for _, k := range []string{"idle", "used", "rel", "idlev", "usedv", "relv", "gm", "present", "npresent", "pods"} {
+				r[k] = last[k]
+			}
+			w.events = []map[string]any{r}
+		}
 	}
 	for _, ev := range w.events {
 		mm += ev["mm"].(int)
@@ -490,7 +508,7 @@ func coverEdges(path string, mc modelConsts, maxLen int, out *tracefmt.Writer) {
 				cur = edges[next].t
 			}
 			sc := &scenario{ID: fmt.Sprintf("e%d", nScen), Class: "model-path", N: mc.N, GpuMem: mc.GpuMem, Cpu: mc.Cpu,
-				MaxPods: mc.MaxPods, Kinds: mc.Kinds}
+				MaxPods: mc.MaxPods, Kinds: mc.Kinds, Silent: len(pre)}
 			for _, ei := range pathE {
 				sc.Ops = append(sc.Ops, edges[ei].A)
 			}
